@@ -42,7 +42,12 @@ RULE = ("random molecules built atom by atom with RDKit (valence-aware growth fr
         "between two aromatic atoms (the statement's exclusion); when RDKit's sanitisation changes WHICH atoms are aromatic with "
         "respect to the text (Kekule-form rings become aromatic; lower-case atoms RDKit itself wrote are de-aromatised on "
         "re-reading) the sanitised molecule is a normalisation, not a reading, and the parser is compared with RDKit's reading of "
-        "the string without sanitisation (class rdkit=reperceived-*). STATE LEAKS: before about 30% of the strings one or two "
+        "the string without sanitisation (class rdkit=reperceived-*). DOTTED stream (kind=dotted, about 1 case in 5; RDKit's writer only puts dots between "
+        "top-level components): generated chains are rewritten with '.' moved / inserted wherever the plain grammar permits - a new branch "
+        "with a dotted tail X(Y.frag), a dot inside an existing branch before its ')' X(Y.frag)Z (RDKit rejects a dot directly "
+        "after '(': X(.frag) is kept in the corpus for the parser-side checks only), a tree bond cut into a dot, a bond "
+        "rewritten as a ring closure across a dot A1.B1 / A1.C.B1, a dot at a ring-closing mark - kept only if RDKit accepts the "
+        "text and the chain is plain and wf; judged by all checks. STATE LEAKS: before about 30% of the strings one or two "
         "state-disturbing texts (reaction bonds, rings / branches left open, pending bond symbols, texts aborted by an exception "
         "after opening rings) are parsed first, through the module-level parse() or on the SAME Parser object that then parses the "
         "SMILES. non-trivial = >= 4 atoms and a ring or branch; distinct = distinct strings")
@@ -135,7 +140,7 @@ def plain_chain_text(rng):
         g = c01.Gen(rng, False, False, False)
         # aliphatic atoms only: RDKit's sanitisation re-decides the aromaticity of arbitrarily placed lower-case atoms
         g.atom = lambda: ["A", rng.choice(["C"] * 10 + ["N", "O", "S", "N", "O", "F", "Cl", "Br", "P", "B", "I"])]
-        g.bond = lambda allow_dot=True: (["I"] if rng.random() < 0.6 else ["D"] if (allow_dot and rng.random() < 0.1)
+        g.bond = lambda allow_dot=True, deep=False: (["I"] if rng.random() < 0.6 else ["D"] if (allow_dot and rng.random() < (0.25 if deep else 0.1))
                                          else ["S", rng.choice(["-", "=", "#", "-", "="])])
         g.new_label = lambda: str(rng.randint(1, 9))
         c = g.chain(0, [rng.choice([2, 3, 4, 6, 8, 10])])
@@ -150,6 +155,103 @@ def plain_chain_text(rng):
         if in_fragment(s) and Chem.MolFromSmiles(s) is not None:
             return s
     return None
+
+
+# ------------------------------------------------------------------ dots where RDKit's writer never puts them
+
+def _nodes(c, depth=0, out=None):
+    """all chain nodes with their branch depth, in textual order"""
+    out = [] if out is None else out
+    out.append((c, depth))
+    for it in c[1]:
+        if it[0] == "branch":
+            _nodes(it[2], depth + 1, out)
+    if c[2]:
+        _nodes(c[2][1], depth, out)
+    return out
+
+
+def _copy(c):
+    import copy
+    return copy.deepcopy(c)
+
+
+def _small_plain(rng):
+    return c01.to_chain(rng.choice(["C", "O", "N", "CC", "CO", "CCO", "C=O", "C#N", "c1ccccc1", "C1CC1", "CC(C)C", "Cl", "CS", "c1ccncc1"]))
+
+
+def dot_transform(rng, chain):
+    """Move / insert "." at a position the plain grammar permits (RDKit itself only writes dots between top-level
+    components). Returns a new chain or None. The caller keeps the text only if RDKit accepts it and it is plain + wf."""
+    c = _copy(chain)
+    nodes = _nodes(c)
+    k = rng.choice(["branch-insert", "branch-insert", "append-in-branch", "append-in-branch", "bond-to-dot", "ring-across-dot",
+                    "ring-across-dot", "dot-at-ring-close"])
+    if k == "branch-insert":                      # X(Y.frag)...  a new branch whose tail is a dotted component
+        node, _ = rng.choice(nodes)               # (RDKit rejects a dot directly after "(", so X(.frag) is corpus-only)
+        node[1].insert(rng.randint(0, len(node[1])),
+                       ["branch", rng.choice([["I"], ["I"], ["S", "-"], ["S", "="]]),
+                        [["A", rng.choice(["C", "C", "N", "O"])], [], [["D"], _small_plain(rng)]]])
+    elif k == "append-in-branch":                 # X(... .frag)Y  dot inside a branch, the ")" must still return to X
+        inner = [n for n, d in nodes if d > 0 and n[2] is None]
+        if not inner:                             # no branch yet: turn a tail into a branch first
+            cand = [n for n, d in nodes if n[2] is not None]
+            if not cand:
+                return None
+            node = rng.choice(cand)
+            b, sub = node[2]
+            node[1].append(["branch", b, sub])
+            node[2] = [["I"], _small_plain(rng)] if rng.random() < 0.7 else None
+            inner = [n for n, d in _nodes(c) if d > 0 and n[2] is None]
+        rng.choice(inner)[2] = [["D"], _small_plain(rng)]
+    elif k == "bond-to-dot":                      # cut a tree bond (changes the molecule; RDKit decides whether it is valid)
+        slots = [(n, "next") for n, d in nodes if n[2]] + [(n, i) for n, d in nodes for i, it in enumerate(n[1]) if it[0] == "branch"]
+        if not slots:
+            return None
+        n, where = rng.choice(slots)
+        if where == "next":
+            n[2][0] = ["D"]
+        else:
+            n[1][where][1] = ["D"]
+    elif k == "ring-across-dot":                  # A b B  ->  A1.B b 1 : same bond, written as a ring closure over a dot
+        used = set(ch for ch in c01.p_chain(c) if ch.isdigit())
+        free = [d for d in "123456789" if d not in used]
+        cand = [n for n, d in nodes if n[2] and n[2][0][0] != "D"]
+        if not free or not cand:
+            return None
+        n = rng.choice(cand)
+        b, sub = n[2]
+        lab = rng.choice(free)
+        n[1].insert(0 if rng.random() < 0.5 else len(n[1]), ["ring", ["I"], lab])
+        sub[1].insert(0, ["ring", b if b[0] != "I" else ["I"], lab])
+        n[2][0] = ["D"]
+        if rng.random() < 0.5:                    # ... possibly with a further component in between: A1.C.B1
+            n[2] = [["D"], [["A", "C"], [], [["D"], sub]]]
+    else:                                         # dot-at-ring-close: C1CC.1 (pinned parser behaviour; RDKit mostly rejects)
+        rings = [(n, i) for n, d in nodes for i, it in enumerate(n[1]) if it[0] == "ring" and it[1][0] != "I"]
+        if not rings:
+            return None
+        n, i = rng.choice(rings)
+        n[1][i][1] = ["D"]
+    return c
+
+
+def dotted_texts(rng, base_text):
+    ch = c01.to_chain(base_text)
+    if ch is None:
+        return
+    for _ in range(4):
+        t = dot_transform(rng, ch)
+        if t is not None and rng.random() < 0.35:
+            t = dot_transform(rng, t) or t
+        if t is None:
+            continue
+        s = c01.p_chain(t)
+        if not in_fragment(s) or not c01.py_wf(t, False) or c01.to_chain(s) is None:
+            continue
+        if Chem.MolFromSmiles(s) is None:
+            continue
+        yield s
 
 
 def mk_case(kind, text, pre=None, via="fresh"):
@@ -181,6 +283,10 @@ def generate(seed, tier, ncases=None):
                 if other is not None:
                     mol = Chem.CombineMols(mol, other)
             cands = writings(rng, mol)
+        if cands and rng.random() < 0.7:          # the dotted stream: about 1 case in 5
+            base = rng.choice(cands)[1]
+            if in_fragment(base):
+                cands = cands + [("dotted", d) for d in list(dotted_texts(rng, base))[:2]]
         for kind, s in cands:
             if produced >= n:
                 break
@@ -194,7 +300,8 @@ def generate(seed, tier, ncases=None):
                 yield mk_case(kind, s)
 
 
-CORPUS = ["C1CCCc2c1cccc2", "C1CC=c1", "c1ccccc1", "Cc1c(C)c(=C)ccc1", "CC(O)=O", "C1CC2C=1C2", "C.O", "c1ccc(-c2ccccc2)cc1",
+CORPUS = ["C(C.C)C", "CC(=O.N)O", "C(.C)C", "C(C)(.C)C", "C1.C1", "C1CC.O1", "C1.CC1", "C1(.C)CC1", "C(C.C)(C.C)C", "C(C(C.C)C)C",
+          "C1.C.C1", "C(C1.C)C1", "c1ccccc1.C(C.O)C", "C(.C.C)C", "c1ccc(C.O)cc1", "c1cc(.C)ccc1", "c1.c1", "CC(=O.N)(.O)C","C1CCCc2c1cccc2", "C1CC=c1", "c1ccccc1", "Cc1c(C)c(=C)ccc1", "CC(O)=O", "C1CC2C=1C2", "C.O", "c1ccc(-c2ccccc2)cc1",
           "CSn1cccc1", "c1ccsn1", "s1nccc1", "C1=CC=CC=C1", "OC(=O)c1ccccc1OC(C)=O", "C1CC1", "N#CC=C", "ClCCl", "BrC(F)I",
           "c1ccc2ccccc2c1", "C1=CSN=C1", "Cn1ccnc1", "O=S(C)(=O)n1cccc1", "C:C", "c:c", "c1cc:ccc1",
           "c1:c:c:c:c:c1", "c1:c:c:c:c:c:1", "c1ccccc1-c1ccccc1", "c1ccccc1c1ccccc1", "c1ccc(cc1)c1ccccn1", "c1cc(C)ccc1C(=O)O", "n1ccccc1",
@@ -389,6 +496,10 @@ def classes(c, out):
     yield "kind=" + c["kind"]
     yield "via=" + c.get("via", "fresh")
     yield "result=" + out[0]
+    if "." in t:
+        ch = c01.to_chain(t)
+        for tag in sorted(c01.dot_shapes(ch)) if ch is not None else []:
+            yield tag
     rk = out[2]
     if rk[0] == "excluded" and out[0] == "ok":
         yield "rdkit=excluded-" + ("agrees-anyway" if agrees_py(out[1], rk[1]) else "differs")
